@@ -280,6 +280,13 @@ func c16RunHistory(sc *Scenario, ops []Op, base map[string]Obs, acc *Acc) c16Res
 		if acc != nil {
 			acc.Evals++
 			acc.Steps += o.Steps
+			if op.W != nil && o.Wr > 0 {
+				acc.Fault("writer-error", 1)
+			}
+			for k, n := range w.FS.Fired {
+				acc.Fault("disk-"+k, int64(n))
+				delete(w.FS.Fired, k)
+			}
 		}
 		if o.Mut != "" {
 			// judged absolutely, not against the baseline (which would be mutated the same way)
